@@ -33,18 +33,19 @@ theorem stepSpec_reads_subset_state {D A : Type} (s : StepSpec D A)
   s.step_congr s.stateKeys hR o o' ds h
 
 /-- **(2) generic, object level** — the hypotheses `hdep`, `hframe`, `hcover` of `resume_bisim` hold
-    for a `StepSpec` with `R = reads`, `W = writes`, `C = ∅`: after `set_state(get_state(orig))` *any*
+    for a `StepSpec` with `W = writes`, `C = ∅` and any `R` with `reads ⊆ R ⊆ stateKeys` that
+    contains every attribute `step` may leave unassigned: after `set_state(get_state(orig))` *any*
     object (of the same configuration, which lives in the instance's parameters) makes exactly the
     transitions of `orig` from the same stream, for every number of steps. -/
-theorem stepSpec_resume_bisim {D A : Type} (s : StepSpec D A)
-    (hR : ∀ k, k ∈ s.reads → k ∈ s.stateKeys)
+theorem stepSpec_resume_bisim {D A : Type} (s : StepSpec D A) (R : List String)
+    (hRR : ∀ k, k ∈ s.reads → k ∈ R) (hRS : ∀ k, k ∈ R → k ∈ s.stateKeys)
     (hW : ∀ (o : Obj) (ds : List D) k, k ∈ s.writes →
-      k ∈ s.reads ∨ ∃ v, (k, v) ∈ collect s.writes (s.kern (s.reads.map o.get) ds).1)
+      k ∈ R ∨ ∃ v, (k, v) ∈ collect s.writes (s.kern (s.reads.map o.get) ds).1)
     (hpoint : "current_point" ∈ s.stateKeys) (orig fresh : Obj) :
     ∃ o', setState s.stateKeys (getState s.stateKeys orig) fresh = some o' ∧
       ∀ n ds, transitions s.step n o' ds = transitions s.step n orig ds :=
-  resume_bisim s.step s.reads s.writes s.stateKeys [] (s.hdep hW)
-    (fun o ds k hk => s.step_frame o ds k hk) (fun k hk => Or.inl (hR k hk)) hpoint orig fresh
+  resume_bisim s.step R s.writes s.stateKeys [] (s.hdep R hRR hW)
+    (fun o ds k hk => s.step_frame o ds k hk) (fun k hk => Or.inl (hRS k hk)) hpoint orig fresh
     (fun k hk => by simp at hk)
 
 /-- `sample(n+m) = sample(n); sample(m)` when the `_pre_sample` invariant holds at the start of
@@ -79,16 +80,8 @@ theorem resume_checkpoint {D A : Type} (sp : Spec D A) (Inv : Obj → Prop)
     (hfix : ∀ o, Inv o → sp.preSample o = o)
     (hInvS : ∀ o o', AgreeOn sp.stateKeys o o' → Inv o → Inv o')
     (r f : Run D A) (p : Nat) (h0 : Inv (sp.preSample (ensureInit sp r).obj)) :
-    ∃ f', loadCheckpoint sp (saveCheckpoint sp (sample sp p r)).2 f = some f' ∧
-      f'.samples = (ensureInit sp f).samples ∧
-      ∀ m, ∃ tail : List (Val × A), tail.length = m ∧
-        (sample sp (p + m) r).samples = (sample sp p r).samples ++ tail.map Prod.fst ∧
-        (sample sp (p + m) r).acc = (sample sp p r).acc ++ tail.map Prod.snd ∧
-        (sample sp m { f' with stream := (sample sp p r).stream }).samples = f'.samples ++ tail.map Prod.fst ∧
-        (sample sp m { f' with stream := (sample sp p r).stream }).acc = f'.acc ++ tail.map Prod.snd ∧
-        (sample sp m { f' with stream := (sample sp p r).stream }).stream = (sample sp (p + m) r).stream ∧
-        AgreeOn sp.stateKeys (sample sp m { f' with stream := (sample sp p r).stream }).obj
-          (sample sp (p + m) r).obj := by
+    ResumesExactly sp r f p := by
+  unfold ResumesExactly
   obtain ⟨_, hcInv, hcInit⟩ := sample_append_at sp Inv hstep hfix p 0 r h0
   generalize hc : sample sp p r = c at hcInv hcInit
   -- save: no re-initialisation
@@ -122,16 +115,563 @@ theorem resume_checkpoint {D A : Type} (sp : Spec D A) (Inv : Obj → Prop)
     { ensureInit sp f with obj := o', stream := c.stream } c hS rfl
   exact ⟨u1, u2, v1, v2, w2, w1⟩
 
+
 /-! ## 1. MH -/
 
-/-- **(1)** `MH.step` reads `current_point`, `current_target_logd`, `scale` (all in `_STATE_KEYS` of
-    the current source) and the configuration (`target`, `proposal`): two `MH` objects agreeing on
-    the state keys make the same transition and agree on the state keys afterwards. -/
+/-- **(1) MH** — `MH.step` reads `current_point`, `current_target_logd`, `scale` (all in `_STATE_KEYS` of the current source) and the
+    configuration (the instance's parameters): two `MH` objects agreeing on the state keys make the
+    same transition — acceptance record and draws consumed — and agree on the state keys afterwards,
+    whatever their other attributes are. -/
 theorem reads_subset_state_MH (logd : Vec → C02.XVal) (o o' : Obj) (ds : List (Vec × C02.XVal))
     (h : AgreeOn Gen.cls_MH.stateKeys o o') :
     ((mhStepSpec logd).step o ds).2 = ((mhStepSpec logd).step o' ds).2 ∧
       AgreeOn Gen.cls_MH.stateKeys ((mhStepSpec logd).step o ds).1 ((mhStepSpec logd).step o' ds).1 :=
-  stepSpec_reads_subset_state (mhStepSpec logd)
-    (by show ∀ k, k ∈ mhReads → k ∈ Gen.cls_MH.stateKeys; decide) o o' ds h
+  stepSpec_reads_subset_state (mhStepSpec logd) mh_hR o o' ds h
+
+/-- **(2) MH, object level** — `resume_bisim` with its read/write hypotheses discharged by proof:
+    `set_state(get_state(orig))` into any other `MH` object gives an object that makes exactly
+    the transitions of `orig` from the same stream, for every number of steps. -/
+theorem resume_bisim_MH (logd : Vec → C02.XVal) (orig fresh : Obj) :
+    ∃ o', setState Gen.cls_MH.stateKeys (getState Gen.cls_MH.stateKeys orig) fresh = some o' ∧
+      ∀ n ds, transitions (mhStepSpec logd).step n o' ds = transitions (mhStepSpec logd).step n orig ds :=
+  stepSpec_resume_bisim (mhStepSpec logd) mhReads (fun _ h => h) mh_hR (hW_of_subset _ _ mh_hWR)
+    (by show "current_point" ∈ Gen.cls_MH.stateKeys; decide) orig fresh
+
+/-- **(2) MH, run level** — checkpoint at every position `p` of the sampling phase
+    (`sample(p); save_checkpoint`), `load_checkpoint` into any sampler `f` of the class (fresh or
+    not), continue: the resumed chain is entry for entry the continuation of the uninterrupted
+    one (`ResumesExactly`). -/
+theorem resume_checkpoint_MH (logd : Vec → C02.XVal) (tune : Obj → List Bool → Nat → Nat → Obj) (r f : Run (Vec × C02.XVal) (Bool)) (p : Nat) :
+    ResumesExactly (mhSpec logd tune) r f p :=
+  resume_checkpoint (mhSpec logd tune) (fun _ => True) (reads_subset_state_MH logd)
+    (by show "current_point" ∈ Gen.cls_MH.stateKeys; decide) (fun _ _ _ => trivial) (fun _ _ => rfl)
+    (fun _ _ _ _ => trivial) r f p trivial
+
+/-- **(3) MH** — `sample(n); sample(m)` equals `sample(n+m)` (attributes, stored samples,
+    acceptance records, callback log, stream). -/
+theorem sample_append_MH (logd : Vec → C02.XVal) (tune : Obj → List Bool → Nat → Nat → Obj) (n m : Nat) (r : Run (Vec × C02.XVal) (Bool)) :
+    sample (mhSpec logd tune) (n + m) r = sample (mhSpec logd tune) m (sample (mhSpec logd tune) n r) :=
+  sample_append (mhSpec logd tune) (fun _ => True) (fun _ => trivial) (fun _ _ _ => trivial) (fun _ _ => rfl) n m r
+
+/-- **(4) MH** — the instance against the current Python source (`tableConsistent`): its reads and
+    writes are reads/writes the AST translator reports for `MH.step`, every carried read of the
+    source is a read of the instance or the configuration `["_target", "_proposal"]`, every write of the source is
+    a write of the instance, the reads are `_STATE_KEYS`, the configuration is constructor-only. -/
+theorem table_consistent_MH :
+    tableConsistent Gen.cls_MH mhReads mhWrites ["_target", "_proposal"] = true := by decide
+
+/-- **MH: the instance is `C02.mhStep`** — on an object holding the (encoded) record `x, logd, scale`,
+    `step` consumes one draw `(xi, log u)`, returns the accept bit of `C02.mhStep .expMH` and leaves
+    exactly that function's new state in `current_point`, `current_target_logd`, `scale`. -/
+theorem MH_step_is_mhStep (logd : Vec → C02.XVal) (o : Obj) (x : Vec) (l : C02.XVal) (s : Vec)
+    (hx : o.get "current_point" = encVec x) (hl : o.get "current_target_logd" = encX l)
+    (hs : o.get "scale" = encVec s) (xi : Vec) (ell : C02.XVal) (rest : List (Vec × C02.XVal)) :
+    ((mhStepSpec logd).step o ((xi, ell) :: rest)).2 = ((C02.mhStep .expMH logd ⟨x, l, [], s⟩ xi ell).2, rest) ∧
+    ((mhStepSpec logd).step o ((xi, ell) :: rest)).1.get "current_point" = encVec (C02.mhStep .expMH logd ⟨x, l, [], s⟩ xi ell).1.x ∧
+    ((mhStepSpec logd).step o ((xi, ell) :: rest)).1.get "current_target_logd" = encX (C02.mhStep .expMH logd ⟨x, l, [], s⟩ xi ell).1.logd ∧
+    ((mhStepSpec logd).step o ((xi, ell) :: rest)).1.get "scale" = encVec (C02.mhStep .expMH logd ⟨x, l, [], s⟩ xi ell).1.scale :=
+  mh_step_sim logd o x l s hx hl hs xi ell rest
+
+/-- a concrete MH chain (standard normal target, `scale = 1/2`): accept, reject, accept at `u = 0`;
+    and resuming it in a sampler whose state is different -/
+example : transitions (mhStepSpec exLogd).step 3 (mhInit exLogd exCtor)
+      [([1, 0], .fin (-1)), ([4, 0], .fin (-1)), ([0, -2], .neginf)] =
+    [(encVec [1/2, 1], true), (encVec [1/2, 1], false), (encVec [1/2, 0], true)] := by decide +kernel
+example := resume_bisim_MH exLogd (((mhStepSpec exLogd).step (mhInit exLogd exCtor) [([1, 0], .fin (-1))]).1) (mhInit exLogd exCtor)
+example := resume_checkpoint_MH exLogd (fun o _ _ _ => o) (Run.fresh exCtor [([1, 0], .fin (-1)), ([4, 0], .fin (-1))]) (Run.fresh exCtor []) 1
+
+/-! ## 2. PCN -/
+
+/-- **(1) PCN** — `PCN.step` reads `current_point`, `current_likelihood_logd`, `scale` (all in `_STATE_KEYS` of the current source) and the
+    configuration (the instance's parameters): two `PCN` objects agreeing on the state keys make the
+    same transition — acceptance record and draws consumed — and agree on the state keys afterwards,
+    whatever their other attributes are. -/
+theorem reads_subset_state_PCN (loglik : Vec → C02.XVal) (sqrtf : Rat → Rat) (o o' : Obj) (ds : List (Vec × C02.XVal))
+    (h : AgreeOn Gen.cls_PCN.stateKeys o o') :
+    ((pcnStepSpec loglik sqrtf).step o ds).2 = ((pcnStepSpec loglik sqrtf).step o' ds).2 ∧
+      AgreeOn Gen.cls_PCN.stateKeys ((pcnStepSpec loglik sqrtf).step o ds).1 ((pcnStepSpec loglik sqrtf).step o' ds).1 :=
+  stepSpec_reads_subset_state (pcnStepSpec loglik sqrtf) pcn_hR o o' ds h
+
+/-- **(2) PCN, object level** — `resume_bisim` with its read/write hypotheses discharged by proof:
+    `set_state(get_state(orig))` into any other `PCN` object gives an object that makes exactly
+    the transitions of `orig` from the same stream, for every number of steps. -/
+theorem resume_bisim_PCN (loglik : Vec → C02.XVal) (sqrtf : Rat → Rat) (orig fresh : Obj) :
+    ∃ o', setState Gen.cls_PCN.stateKeys (getState Gen.cls_PCN.stateKeys orig) fresh = some o' ∧
+      ∀ n ds, transitions (pcnStepSpec loglik sqrtf).step n o' ds = transitions (pcnStepSpec loglik sqrtf).step n orig ds :=
+  stepSpec_resume_bisim (pcnStepSpec loglik sqrtf) pcnReads (fun _ h => h) pcn_hR (hW_of_subset _ _ pcn_hWR)
+    (by show "current_point" ∈ Gen.cls_PCN.stateKeys; decide) orig fresh
+
+/-- **(2) PCN, run level** — checkpoint at every position `p` of the sampling phase
+    (`sample(p); save_checkpoint`), `load_checkpoint` into any sampler `f` of the class (fresh or
+    not), continue: the resumed chain is entry for entry the continuation of the uninterrupted
+    one (`ResumesExactly`). -/
+theorem resume_checkpoint_PCN (loglik : Vec → C02.XVal) (sqrtf : Rat → Rat) (tune : Obj → List Bool → Nat → Nat → Obj) (r f : Run (Vec × C02.XVal) (Bool)) (p : Nat) :
+    ResumesExactly (pcnSpec loglik sqrtf tune) r f p :=
+  resume_checkpoint (pcnSpec loglik sqrtf tune) (fun _ => True) (reads_subset_state_PCN loglik sqrtf)
+    (by show "current_point" ∈ Gen.cls_PCN.stateKeys; decide) (fun _ _ _ => trivial) (fun _ _ => rfl)
+    (fun _ _ _ _ => trivial) r f p trivial
+
+/-- **(3) PCN** — `sample(n); sample(m)` equals `sample(n+m)` (attributes, stored samples,
+    acceptance records, callback log, stream). -/
+theorem sample_append_PCN (loglik : Vec → C02.XVal) (sqrtf : Rat → Rat) (tune : Obj → List Bool → Nat → Nat → Obj) (n m : Nat) (r : Run (Vec × C02.XVal) (Bool)) :
+    sample (pcnSpec loglik sqrtf tune) (n + m) r = sample (pcnSpec loglik sqrtf tune) m (sample (pcnSpec loglik sqrtf tune) n r) :=
+  sample_append (pcnSpec loglik sqrtf tune) (fun _ => True) (fun _ => trivial) (fun _ _ _ => trivial) (fun _ _ => rfl) n m r
+
+/-- **(4) PCN** — the instance against the current Python source (`tableConsistent`): its reads and
+    writes are reads/writes the AST translator reports for `PCN.step`, every carried read of the
+    source is a read of the instance or the configuration `["_target"]`, every write of the source is
+    a write of the instance, the reads are `_STATE_KEYS`, the configuration is constructor-only. -/
+theorem table_consistent_PCN :
+    tableConsistent Gen.cls_PCN pcnReads pcnWrites ["_target"] = true := by decide
+
+/-- **PCN: the instance is `C02.pcnStep`** with `c = sqrtf (1 - scale²)` (`sqrtf` = the float
+    `np.sqrt`), on the record `x, loglik, scale`. -/
+theorem PCN_step_is_pcnStep (loglik : Vec → C02.XVal) (sqrtf : Rat → Rat) (o : Obj) (x : Vec) (l : C02.XVal) (s : Vec)
+    (hx : o.get "current_point" = encVec x) (hl : o.get "current_likelihood_logd" = encX l)
+    (hs : o.get "scale" = encVec s) (xi : Vec) (ell : C02.XVal) (rest : List (Vec × C02.XVal)) :
+    ((pcnStepSpec loglik sqrtf).step o ((xi, ell) :: rest)).2 =
+      ((C02.pcnStep .expPCN loglik (sqrtf (1 - s.headD 0 * s.headD 0)) ⟨x, l, [], s⟩ xi ell).2, rest) ∧
+    ((pcnStepSpec loglik sqrtf).step o ((xi, ell) :: rest)).1.get "current_point" =
+      encVec (C02.pcnStep .expPCN loglik (sqrtf (1 - s.headD 0 * s.headD 0)) ⟨x, l, [], s⟩ xi ell).1.x ∧
+    ((pcnStepSpec loglik sqrtf).step o ((xi, ell) :: rest)).1.get "current_likelihood_logd" =
+      encX (C02.pcnStep .expPCN loglik (sqrtf (1 - s.headD 0 * s.headD 0)) ⟨x, l, [], s⟩ xi ell).1.logd ∧
+    ((pcnStepSpec loglik sqrtf).step o ((xi, ell) :: rest)).1.get "scale" = encVec s :=
+  pcn_step_sim loglik sqrtf o x l s hx hl hs xi ell rest
+
+example : transitions (pcnStepSpec exLogd exSqrt).step 3 (pcnInit exLogd exCtor)
+      [([1, 0], .fin (-1)), ([4, 8], .fin (-1)), ([0, -2], .neginf)] =
+    [(encVec [1/2, 7/8], true), (encVec [1/2, 7/8], false), (encVec [7/16, -15/64], true)] := by decide +kernel
+example := resume_checkpoint_PCN exLogd exSqrt (fun o _ _ _ => o) (Run.fresh exCtor [([1, 0], .fin (-1)), ([4, 8], .fin (-1))]) (Run.fresh exCtor []) 1
+
+/-! ## 3. MALA -/
+
+/-- **(1) MALA** — `MALA.step` reads `current_point`, `current_target_logd`, `current_target_grad`, `scale` (all in `_STATE_KEYS` of the current source) and the
+    configuration (the instance's parameters): two `MALA` objects agreeing on the state keys make the
+    same transition — acceptance record and draws consumed — and agree on the state keys afterwards,
+    whatever their other attributes are. -/
+theorem reads_subset_state_MALA (logd : Vec → C02.XVal) (gradf : Vec → Vec) (sqrtf : Rat → Rat) (o o' : Obj) (ds : List (Vec × C02.XVal))
+    (h : AgreeOn Gen.cls_MALA.stateKeys o o') :
+    ((malaStepSpec logd gradf sqrtf).step o ds).2 = ((malaStepSpec logd gradf sqrtf).step o' ds).2 ∧
+      AgreeOn Gen.cls_MALA.stateKeys ((malaStepSpec logd gradf sqrtf).step o ds).1 ((malaStepSpec logd gradf sqrtf).step o' ds).1 :=
+  stepSpec_reads_subset_state (malaStepSpec logd gradf sqrtf) mala_hR o o' ds h
+
+/-- **(2) MALA, object level** — `resume_bisim` with its read/write hypotheses discharged by proof:
+    `set_state(get_state(orig))` into any other `MALA` object gives an object that makes exactly
+    the transitions of `orig` from the same stream, for every number of steps. -/
+theorem resume_bisim_MALA (logd : Vec → C02.XVal) (gradf : Vec → Vec) (sqrtf : Rat → Rat) (orig fresh : Obj) :
+    ∃ o', setState Gen.cls_MALA.stateKeys (getState Gen.cls_MALA.stateKeys orig) fresh = some o' ∧
+      ∀ n ds, transitions (malaStepSpec logd gradf sqrtf).step n o' ds = transitions (malaStepSpec logd gradf sqrtf).step n orig ds :=
+  stepSpec_resume_bisim (malaStepSpec logd gradf sqrtf) malaReads (fun _ h => h) mala_hR (hW_of_subset _ _ mala_hWR)
+    (by show "current_point" ∈ Gen.cls_MALA.stateKeys; decide) orig fresh
+
+/-- **(2) MALA, run level** — checkpoint at every position `p` of the sampling phase
+    (`sample(p); save_checkpoint`), `load_checkpoint` into any sampler `f` of the class (fresh or
+    not), continue: the resumed chain is entry for entry the continuation of the uninterrupted
+    one (`ResumesExactly`). -/
+theorem resume_checkpoint_MALA (logd : Vec → C02.XVal) (gradf : Vec → Vec) (sqrtf : Rat → Rat) (r f : Run (Vec × C02.XVal) (Bool)) (p : Nat) :
+    ResumesExactly (malaSpec logd gradf sqrtf) r f p :=
+  resume_checkpoint (malaSpec logd gradf sqrtf) (fun _ => True) (reads_subset_state_MALA logd gradf sqrtf)
+    (by show "current_point" ∈ Gen.cls_MALA.stateKeys; decide) (fun _ _ _ => trivial) (fun _ _ => rfl)
+    (fun _ _ _ _ => trivial) r f p trivial
+
+/-- **(3) MALA** — `sample(n); sample(m)` equals `sample(n+m)` (attributes, stored samples,
+    acceptance records, callback log, stream). -/
+theorem sample_append_MALA (logd : Vec → C02.XVal) (gradf : Vec → Vec) (sqrtf : Rat → Rat) (n m : Nat) (r : Run (Vec × C02.XVal) (Bool)) :
+    sample (malaSpec logd gradf sqrtf) (n + m) r = sample (malaSpec logd gradf sqrtf) m (sample (malaSpec logd gradf sqrtf) n r) :=
+  sample_append (malaSpec logd gradf sqrtf) (fun _ => True) (fun _ => trivial) (fun _ _ _ => trivial) (fun _ _ => rfl) n m r
+
+/-- **(4) MALA** — the instance against the current Python source (`tableConsistent`): its reads and
+    writes are reads/writes the AST translator reports for `MALA.step`, every carried read of the
+    source is a read of the instance or the configuration `["_target"]`, every write of the source is
+    a write of the instance, the reads are `_STATE_KEYS`, the configuration is constructor-only. -/
+theorem table_consistent_MALA :
+    tableConsistent Gen.cls_MALA malaReads malaWrites ["_target"] = true := by decide
+
+/-- **MALA: the instance is `C02.malaStep`** with `sigma = sqrtf scale`, on the record
+    `x, logd, grad, scale`. -/
+theorem MALA_step_is_malaStep (logd : Vec → C02.XVal) (gradf : Vec → Vec) (sqrtf : Rat → Rat) (o : Obj)
+    (x : Vec) (l : C02.XVal) (g s : Vec)
+    (hx : o.get "current_point" = encVec x) (hl : o.get "current_target_logd" = encX l)
+    (hg : o.get "current_target_grad" = encVec g)
+    (hs : o.get "scale" = encVec s) (z : Vec) (ell : C02.XVal) (rest : List (Vec × C02.XVal)) :
+    ((malaStepSpec logd gradf sqrtf).step o ((z, ell) :: rest)).2 =
+      ((C02.malaStep .expMALA logd gradf (sqrtf (s.headD 0)) ⟨x, l, g, s⟩ z ell).2, rest) ∧
+    ((malaStepSpec logd gradf sqrtf).step o ((z, ell) :: rest)).1.get "current_point" =
+      encVec (C02.malaStep .expMALA logd gradf (sqrtf (s.headD 0)) ⟨x, l, g, s⟩ z ell).1.x ∧
+    ((malaStepSpec logd gradf sqrtf).step o ((z, ell) :: rest)).1.get "current_target_logd" =
+      encX (C02.malaStep .expMALA logd gradf (sqrtf (s.headD 0)) ⟨x, l, g, s⟩ z ell).1.logd ∧
+    ((malaStepSpec logd gradf sqrtf).step o ((z, ell) :: rest)).1.get "current_target_grad" =
+      encVec (C02.malaStep .expMALA logd gradf (sqrtf (s.headD 0)) ⟨x, l, g, s⟩ z ell).1.grad ∧
+    ((malaStepSpec logd gradf sqrtf).step o ((z, ell) :: rest)).1.get "scale" = encVec s :=
+  mala_step_sim logd gradf sqrtf o x l g s hx hl hg hs z ell rest
+
+example : transitions (malaStepSpec exLogd exGrad exSqrt).step 3 (ulaInit exLogd exGrad exCtorMala)
+      [([1, 0], .fin (-1)), ([8, 8], .fin (-1)), ([2, 0], .neginf)] =
+    [(encVec [1/2, 7/8], true), (encVec [1/2, 7/8], false), (encVec [23/16, 49/64], true)] := by decide +kernel
+example := resume_checkpoint_MALA exLogd exGrad exSqrt (Run.fresh exCtorMala [([1, 0], .fin (-1)), ([8, 8], .fin (-1))]) (Run.fresh exCtorMala []) 1
+
+/-! ## 4. ULA -/
+
+/-- **(1) ULA** — `ULA.step` reads `current_point`, `current_target_grad`, `scale` (all in `_STATE_KEYS` of the current source) and the
+    configuration (the instance's parameters): two `ULA` objects agreeing on the state keys make the
+    same transition — acceptance record and draws consumed — and agree on the state keys afterwards,
+    whatever their other attributes are.
+    (`current_target_logd` is assigned on acceptance but never read.) -/
+theorem reads_subset_state_ULA (logd : Vec → C02.XVal) (gradf : Vec → Vec) (sqrtf : Rat → Rat) (o o' : Obj) (ds : List (Vec))
+    (h : AgreeOn Gen.cls_ULA.stateKeys o o') :
+    ((ulaStepSpec logd gradf sqrtf).step o ds).2 = ((ulaStepSpec logd gradf sqrtf).step o' ds).2 ∧
+      AgreeOn Gen.cls_ULA.stateKeys ((ulaStepSpec logd gradf sqrtf).step o ds).1 ((ulaStepSpec logd gradf sqrtf).step o' ds).1 :=
+  stepSpec_reads_subset_state (ulaStepSpec logd gradf sqrtf) ula_hR o o' ds h
+
+/-- **(2) ULA, object level** — `resume_bisim` with its read/write hypotheses discharged by proof:
+    `set_state(get_state(orig))` into any other `ULA` object gives an object that makes exactly
+    the transitions of `orig` from the same stream, for every number of steps. -/
+theorem resume_bisim_ULA (logd : Vec → C02.XVal) (gradf : Vec → Vec) (sqrtf : Rat → Rat) (orig fresh : Obj) :
+    ∃ o', setState Gen.cls_ULA.stateKeys (getState Gen.cls_ULA.stateKeys orig) fresh = some o' ∧
+      ∀ n ds, transitions (ulaStepSpec logd gradf sqrtf).step n o' ds = transitions (ulaStepSpec logd gradf sqrtf).step n orig ds :=
+  stepSpec_resume_bisim (ulaStepSpec logd gradf sqrtf) ulaR ula_hRR ula_hRS (hW_of_subset _ _ ula_hWR)
+    (by show "current_point" ∈ Gen.cls_ULA.stateKeys; decide) orig fresh
+
+/-- **(2) ULA, run level** — checkpoint at every position `p` of the sampling phase
+    (`sample(p); save_checkpoint`), `load_checkpoint` into any sampler `f` of the class (fresh or
+    not), continue: the resumed chain is entry for entry the continuation of the uninterrupted
+    one (`ResumesExactly`). -/
+theorem resume_checkpoint_ULA (logd : Vec → C02.XVal) (gradf : Vec → Vec) (sqrtf : Rat → Rat) (r f : Run (Vec) (Bool)) (p : Nat) :
+    ResumesExactly (ulaSpec logd gradf sqrtf) r f p :=
+  resume_checkpoint (ulaSpec logd gradf sqrtf) (fun _ => True) (reads_subset_state_ULA logd gradf sqrtf)
+    (by show "current_point" ∈ Gen.cls_ULA.stateKeys; decide) (fun _ _ _ => trivial) (fun _ _ => rfl)
+    (fun _ _ _ _ => trivial) r f p trivial
+
+/-- **(3) ULA** — `sample(n); sample(m)` equals `sample(n+m)` (attributes, stored samples,
+    acceptance records, callback log, stream). -/
+theorem sample_append_ULA (logd : Vec → C02.XVal) (gradf : Vec → Vec) (sqrtf : Rat → Rat) (n m : Nat) (r : Run (Vec) (Bool)) :
+    sample (ulaSpec logd gradf sqrtf) (n + m) r = sample (ulaSpec logd gradf sqrtf) m (sample (ulaSpec logd gradf sqrtf) n r) :=
+  sample_append (ulaSpec logd gradf sqrtf) (fun _ => True) (fun _ => trivial) (fun _ _ _ => trivial) (fun _ _ => rfl) n m r
+
+/-- **(4) ULA** — the instance against the current Python source (`tableConsistent`): its reads and
+    writes are reads/writes the AST translator reports for `ULA.step`, every carried read of the
+    source is a read of the instance or the configuration `["_target"]`, every write of the source is
+    a write of the instance, the reads are `_STATE_KEYS`, the configuration is constructor-only. -/
+theorem table_consistent_ULA :
+    tableConsistent Gen.cls_ULA ulaReads ulaWrites ["_target"] = true := by decide
+
+/-- **ULA: the instance is `ulaStep`** (the MALA proposal `C02.malaPropose`, accepted unless the value
+    at the proposal is NaN/±inf), on the record `x, grad, scale`; `current_target_logd` is assigned
+    on acceptance only. -/
+theorem ULA_step_is_ulaStep (logd : Vec → C02.XVal) (gradf : Vec → Vec) (sqrtf : Rat → Rat) (o : Obj)
+    (x g s : Vec)
+    (hx : o.get "current_point" = encVec x) (hg : o.get "current_target_grad" = encVec g)
+    (hs : o.get "scale" = encVec s) (z : Vec) (rest : List Vec) :
+    ((ulaStepSpec logd gradf sqrtf).step o (z :: rest)).2 =
+      ((ulaStep logd gradf (sqrtf (s.headD 0)) ⟨x, .nan, g, s⟩ z).2, rest) ∧
+    ((ulaStepSpec logd gradf sqrtf).step o (z :: rest)).1.get "current_point" =
+      encVec (ulaStep logd gradf (sqrtf (s.headD 0)) ⟨x, .nan, g, s⟩ z).1.x ∧
+    ((ulaStepSpec logd gradf sqrtf).step o (z :: rest)).1.get "current_target_grad" =
+      encVec (ulaStep logd gradf (sqrtf (s.headD 0)) ⟨x, .nan, g, s⟩ z).1.grad ∧
+    ((ulaStepSpec logd gradf sqrtf).step o (z :: rest)).1.get "current_target_logd" =
+      (if (ulaStep logd gradf (sqrtf (s.headD 0)) ⟨x, .nan, g, s⟩ z).2
+        then encX (ulaStep logd gradf (sqrtf (s.headD 0)) ⟨x, .nan, g, s⟩ z).1.logd
+        else o.get "current_target_logd") ∧
+    ((ulaStepSpec logd gradf sqrtf).step o (z :: rest)).1.get "scale" = encVec s :=
+  ula_step_sim logd gradf sqrtf o x g s hx hg hs z rest
+
+/-- **ULA is MALA without the Metropolis test**: `ulaStep` is `C02.malaStep .expMALA` at
+    `log u = -inf` (so the C02 theorems about `malaStep` — proposal, finiteness guard — apply). -/
+theorem ulaStep_eq_malaStep (logd : Vec → C02.XVal) (gradf : Vec → Vec) (sigma : Rat) (st : C02.St) (z : Vec) :
+    ulaStep logd gradf sigma st z = C02.malaStep .expMALA logd gradf sigma st z .neginf :=
+  ulaStep_eq logd gradf sigma st z
+
+example : transitions (ulaStepSpec exLogd exGrad exSqrt).step 2 (ulaInit exLogd exGrad exCtorMala) [[1, 0], [8, 8]] =
+    [(encVec [1/2, 7/8], true), (encVec [71/16, 305/64], true)] := by decide +kernel
+example := resume_checkpoint_ULA exLogd exGrad exSqrt (Run.fresh exCtorMala [[1, 0], [8, 8]]) (Run.fresh exCtorMala []) 1
+
+/-! ## 5. CWMH -/
+
+/-- **(1) CWMH** — `CWMH.step` reads `current_point`, `current_target_logd`, `_scale` (all in `_STATE_KEYS` of the current source) and the
+    configuration (the instance's parameters): two `CWMH` objects agreeing on the state keys make the
+    same transition — acceptance record and draws consumed — and agree on the state keys afterwards,
+    whatever their other attributes are. -/
+theorem reads_subset_state_CWMH (logd : Vec → C02.XVal) (o o' : Obj) (ds : List (Vec × List C02.XVal))
+    (h : AgreeOn Gen.cls_CWMH.stateKeys o o') :
+    ((cwStepSpec logd).step o ds).2 = ((cwStepSpec logd).step o' ds).2 ∧
+      AgreeOn Gen.cls_CWMH.stateKeys ((cwStepSpec logd).step o ds).1 ((cwStepSpec logd).step o' ds).1 :=
+  stepSpec_reads_subset_state (cwStepSpec logd) cw_hR o o' ds h
+
+/-- **(2) CWMH, object level** — `resume_bisim` with its read/write hypotheses discharged by proof:
+    `set_state(get_state(orig))` into any other `CWMH` object gives an object that makes exactly
+    the transitions of `orig` from the same stream, for every number of steps. -/
+theorem resume_bisim_CWMH (logd : Vec → C02.XVal) (orig fresh : Obj) :
+    ∃ o', setState Gen.cls_CWMH.stateKeys (getState Gen.cls_CWMH.stateKeys orig) fresh = some o' ∧
+      ∀ n ds, transitions (cwStepSpec logd).step n o' ds = transitions (cwStepSpec logd).step n orig ds :=
+  stepSpec_resume_bisim (cwStepSpec logd) cwReads (fun _ h => h) cw_hR (hW_of_subset _ _ cw_hWR)
+    (by show "current_point" ∈ Gen.cls_CWMH.stateKeys; decide) orig fresh
+
+/-- **(2) CWMH, run level** — checkpoint at every position `p` of the sampling phase
+    (`sample(p); save_checkpoint`), `load_checkpoint` into any sampler `f` of the class (fresh or
+    not), continue: the resumed chain is entry for entry the continuation of the uninterrupted
+    one (`ResumesExactly`). -/
+theorem resume_checkpoint_CWMH (logd : Vec → C02.XVal) (tune : Obj → List (List Bool) → Nat → Nat → Obj) (r f : Run (Vec × List C02.XVal) (List Bool)) (p : Nat) :
+    ResumesExactly (cwSpec logd tune) r f p :=
+  resume_checkpoint (cwSpec logd tune) (fun _ => True) (reads_subset_state_CWMH logd)
+    (by show "current_point" ∈ Gen.cls_CWMH.stateKeys; decide) (fun _ _ _ => trivial) (fun _ _ => rfl)
+    (fun _ _ _ _ => trivial) r f p trivial
+
+/-- **(3) CWMH** — `sample(n); sample(m)` equals `sample(n+m)` (attributes, stored samples,
+    acceptance records, callback log, stream). -/
+theorem sample_append_CWMH (logd : Vec → C02.XVal) (tune : Obj → List (List Bool) → Nat → Nat → Obj) (n m : Nat) (r : Run (Vec × List C02.XVal) (List Bool)) :
+    sample (cwSpec logd tune) (n + m) r = sample (cwSpec logd tune) m (sample (cwSpec logd tune) n r) :=
+  sample_append (cwSpec logd tune) (fun _ => True) (fun _ => trivial) (fun _ _ _ => trivial) (fun _ _ => rfl) n m r
+
+/-- **(4) CWMH** — the instance against the current Python source (`tableConsistent`): its reads and
+    writes are reads/writes the AST translator reports for `CWMH.step`, every carried read of the
+    source is a read of the instance or the configuration `["_target", "_proposal"]`, every write of the source is
+    a write of the instance, the reads are `_STATE_KEYS`, the configuration is constructor-only. -/
+theorem table_consistent_CWMH :
+    tableConsistent Gen.cls_CWMH cwReads cwWrites ["_target", "_proposal"] = true := by decide
+
+/-- **CWMH: the instance is `C02.cwStep`** (the whole component sweep), on the record
+    `x, logd, scale`; the acceptance record is the vector of per-component flags. -/
+theorem CWMH_step_is_cwStep (logd : Vec → C02.XVal) (o : Obj) (x : Vec) (l : C02.XVal) (s : Vec)
+    (hx : o.get "current_point" = encVec x) (hl : o.get "current_target_logd" = encX l)
+    (hs : o.get "_scale" = encVec s) (z : Vec) (ells : List C02.XVal) (rest : List (Vec × List C02.XVal)) :
+    ((cwStepSpec logd).step o ((z, ells) :: rest)).2 =
+      ((C02.cwStep .expCWMH (fun _ p => logd p) ⟨x, l, [], s⟩ z ells).2.1, rest) ∧
+    ((cwStepSpec logd).step o ((z, ells) :: rest)).1.get "current_point" =
+      encVec (C02.cwStep .expCWMH (fun _ p => logd p) ⟨x, l, [], s⟩ z ells).1.x ∧
+    ((cwStepSpec logd).step o ((z, ells) :: rest)).1.get "current_target_logd" =
+      encX (C02.cwStep .expCWMH (fun _ p => logd p) ⟨x, l, [], s⟩ z ells).1.logd ∧
+    ((cwStepSpec logd).step o ((z, ells) :: rest)).1.get "_scale" =
+      encVec (C02.cwStep .expCWMH (fun _ p => logd p) ⟨x, l, [], s⟩ z ells).1.scale :=
+  cw_step_sim logd o x l s hx hl hs z ells rest
+
+/-- a concrete CWMH chain: first sweep accepts component 0 and rejects component 1 -/
+example : transitions (cwStepSpec exLogd).step 2 (cwInit exLogd exCtor)
+      [([1, 4], [.fin (-1), .fin (-1)]), ([0, -2], [.neginf, .neginf])] =
+    [(encVec [1/2, 1], [true, false]), (encVec [1/2, 0], [true, true])] := by decide +kernel
+example := resume_checkpoint_CWMH exLogd (fun o _ _ _ => o) (Run.fresh exCtor [([1, 4], [.fin (-1), .fin (-1)])]) (Run.fresh exCtor []) 1
+
+/-! ## 6. NUTS -/
+
+/-- **(1) NUTS** — `NUTS.step` reads `_epsilon`, `_epsilon_bar`, `_max_depth`, `current_point`,
+    `current_target_grad`, `current_target_logd` (all in `_STATE_KEYS` of the current source) and the
+    configuration (`target`): two `NUTS` objects agreeing on the state keys make the same transition
+    (same tree, same number of draws consumed, same acceptance) and agree on the state keys
+    afterwards — whatever `_num_tree_node`, `_current_alpha_ratio`, `_mu`, … hold. -/
+theorem reads_subset_state_NUTS (cfg : NutsCfg) (o o' : Obj) (ds : List Rat)
+    (h : AgreeOn Gen.cls_NUTS.stateKeys o o') :
+    ((nutsStepSpec cfg).step o ds).2 = ((nutsStepSpec cfg).step o' ds).2 ∧
+      AgreeOn Gen.cls_NUTS.stateKeys ((nutsStepSpec cfg).step o ds).1 ((nutsStepSpec cfg).step o' ds).1 :=
+  stepSpec_reads_subset_state (nutsStepSpec cfg) nuts_hR o o' ds h
+
+/-- **(2) NUTS, object level** — `resume_bisim` with its hypotheses discharged by proof (the three
+    attributes that are written but not read — `_current_alpha_ratio`, `_epsilon`,
+    `_num_tree_node` — are assigned by every call). -/
+theorem resume_bisim_NUTS (cfg : NutsCfg) (orig fresh : Obj) :
+    ∃ o', setState Gen.cls_NUTS.stateKeys (getState Gen.cls_NUTS.stateKeys orig) fresh = some o' ∧
+      ∀ n ds, transitions (nutsStepSpec cfg).step n o' ds = transitions (nutsStepSpec cfg).step n orig ds :=
+  stepSpec_resume_bisim (nutsStepSpec cfg) nutsReads (fun _ h => h) nuts_hR (nuts_hW cfg)
+    (by show "current_point" ∈ Gen.cls_NUTS.stateKeys; decide) orig fresh
+
+/-- **(2) NUTS, run level** — checkpoint at every position `p` of the sampling phase and resume in
+    any other NUTS sampler `f` (fresh, warmed up, …): the resumed chain continues the uninterrupted
+    one entry for entry.  Hypothesis: when `sample` starts on `r`, the step size is a number or
+    `_epsilon_bar` is already set (true after `initialize`, see `resume_checkpoint_NUTS_fresh`). -/
+theorem resume_checkpoint_NUTS (cfg : NutsCfg) (r f : Run Rat Bool) (p : Nat)
+    (h : (ensureInit (nutsSpec cfg) r).obj.get "_epsilon" ≠ .unset ∨
+         (ensureInit (nutsSpec cfg) r).obj.get "_epsilon_bar" ≠ .unset) :
+    ResumesExactly (nutsSpec cfg) r f p :=
+  resume_checkpoint (nutsSpec cfg) nutsInv (reads_subset_state_NUTS cfg)
+    (by show "current_point" ∈ Gen.cls_NUTS.stateKeys; decide) (nuts_inv_step cfg)
+    nuts_preSample_fix nuts_inv_agree r f p (nuts_preSample_inv _ h)
+
+/-- … in particular for a sampler that `sample` itself initialises. -/
+theorem resume_checkpoint_NUTS_fresh (cfg : NutsCfg) (ctor : Obj) (ds : List Rat) (f : Run Rat Bool) (p : Nat) :
+    ResumesExactly (nutsSpec cfg) (Run.fresh ctor ds) f p :=
+  resume_checkpoint_NUTS cfg _ f p (Or.inl (by
+    simp only [ensureInit, Run.fresh, initializeRun, nutsSpec, StepSpec.toSpec]
+    exact nutsInit_epsilon cfg ctor))
+
+/-- **(3) NUTS** — `sample(n); sample(m)` equals `sample(n+m)`: the second `_pre_sample` finds
+    `_epsilon_bar` set and does nothing. -/
+theorem sample_append_NUTS (cfg : NutsCfg) (n m : Nat) (r : Run Rat Bool)
+    (h : (ensureInit (nutsSpec cfg) r).obj.get "_epsilon" ≠ .unset ∨
+         (ensureInit (nutsSpec cfg) r).obj.get "_epsilon_bar" ≠ .unset) :
+    sample (nutsSpec cfg) (n + m) r = sample (nutsSpec cfg) m (sample (nutsSpec cfg) n r) :=
+  (sample_append_at (nutsSpec cfg) nutsInv (nuts_inv_step cfg) nuts_preSample_fix n m r
+    (nuts_preSample_inv _ h)).1
+
+theorem sample_append_NUTS_fresh (cfg : NutsCfg) (n m : Nat) (ctor : Obj) (ds : List Rat) :
+    sample (nutsSpec cfg) (n + m) (Run.fresh ctor ds) =
+      sample (nutsSpec cfg) m (sample (nutsSpec cfg) n (Run.fresh ctor ds)) :=
+  sample_append_NUTS cfg n m _ (Or.inl (by
+    simp only [ensureInit, Run.fresh, initializeRun, nutsSpec, StepSpec.toSpec]
+    exact nutsInit_epsilon cfg ctor))
+
+/-- **(4) NUTS** — `step` as for the other classes; in addition `tune`, `_pre_sample`, `_pre_warmup`:
+    the instance's `tune` reads/writes what the source's `tune` reads/writes (`_epsilon` is read by
+    the source only after it assigned it), and `_pre_sample`/`_pre_warmup` touch `_epsilon`,
+    `_epsilon_bar` only. -/
+theorem table_consistent_NUTS :
+    tableConsistent Gen.cls_NUTS nutsReads nutsWrites ["_target"] = true ∧
+    (∀ k, k ∈ nutsTuneReads → k ∈ Gen.cls_NUTS.tuneReads) ∧
+    (∀ k, k ∈ Gen.cls_NUTS.tuneReads → k ∈ nutsTuneReads ∨ k ∈ nutsTuneWrites) ∧
+    (∀ k, k ∈ nutsTuneWrites ↔ k ∈ Gen.cls_NUTS.tuneWrites) ∧
+    Gen.cls_NUTS.preSampleCarried = ["_epsilon", "_epsilon_bar"] ∧
+    Gen.cls_NUTS.preSampleWrites = ["_epsilon_bar"] ∧ Gen.cls_NUTS.preWarmupWrites = ["_epsilon_bar"] := by
+  refine ⟨by decide, by decide, by decide, ?_, rfl, rfl, rfl⟩
+  intro k
+  simp only [nutsTuneWrites, Gen.cls_NUTS]
+
+/-- **NUTS: the instance is `C08.nutsStep`** — on an object holding the (encoded) step size `eps`,
+    depth bound, point, cached gradient and finite cached log-density, `step` draws the momentum
+    (`dim` numbers) and the slice variable (one `Exp(1)` number) from the stream, runs exactly the
+    `C08.nutsStep` call of `Driver/C08.lean` (`nutsLoop`: `Ham = logd − ½ r·r`, `log_u = Ham − e`,
+    the experimental interface's finiteness guard) on the rest, returns its `acc` and remaining
+    stream, installs its `cur` (point and caches), stores the node count and the acceptance
+    statistic of the last doubling, and hands `_epsilon_bar` over to `_epsilon`. -/
+theorem NUTS_step_is_nutsStep (cfg : NutsCfg) (o : Obj) (eps : Rat) (eb : Val) (md : Nat) (x g : Vec) (l0 : Rat)
+    (he : o.get "_epsilon" = encQ eps) (heb : o.get "_epsilon_bar" = eb)
+    (hmd : o.get "_max_depth" = .int md) (hx : o.get "current_point" = encVec x)
+    (hg : o.get "current_target_grad" = encVec g) (hl : o.get "current_target_logd" = encR (.fin l0))
+    (ds : List Rat) :
+    ((nutsStepSpec cfg).step o ds).2 = ((nutsLoop cfg eps md x g l0 ds).2.acc, (nutsLoop cfg eps md x g l0 ds).2.us) ∧
+    ((nutsStepSpec cfg).step o ds).1.get "current_point" = encVec (nutsLoop cfg eps md x g l0 ds).2.cur.x ∧
+    ((nutsStepSpec cfg).step o ds).1.get "current_target_grad" = encVec (nutsLoop cfg eps md x g l0 ds).2.cur.grad ∧
+    ((nutsStepSpec cfg).step o ds).1.get "current_target_logd" = encR (nutsLoop cfg eps md x g l0 ds).2.cur.logd ∧
+    ((nutsStepSpec cfg).step o ds).1.get "_epsilon" = eb ∧
+    ((nutsStepSpec cfg).step o ds).1.get "_epsilon_bar" = eb ∧
+    ((nutsStepSpec cfg).step o ds).1.get "_num_tree_node" = .int (nutsLoop cfg eps md x g l0 ds).2.nodes ∧
+    ((nutsStepSpec cfg).step o ds).1.get "_current_alpha_ratio" =
+      encR (cfg.alpha (nutsLoop cfg eps md x g l0 ds).1 (nutsLoop cfg eps md x g l0 ds).2.last) :=
+  nuts_step_sim cfg o eps eb md x g l0 he heb hmd hx hg hl ds
+
+/-- the cached log-density stays finite: with the experimental interface's guard a transition
+    from a finite cached value ends at a finite cached value (so the finite-start branch of the
+    instance is the one taken along the whole chain) -/
+theorem NUTS_logd_stays_finite (cfg : NutsCfg) (eps : Rat) (md : Nat) (x g : Vec) (l0 : Rat) (ds : List Rat) :
+    (nutsLoop cfg eps md x g l0 ds).2.cur.logd.isFinite = true :=
+  nutsStep_guard _ (fun z : C08.PS => z.logd.isFinite) md _ _ rfl
+
+/-- a concrete NUTS chain (1-D standard normal, `max_depth = 1`, `step_size = 1/2`): two
+    transitions consuming 7 and 6 draws -/
+example : transitions (nutsStepSpec exCfg).step 2 (nutsPreSample (nutsInit exCfg exNutsCtor)) exStream =
+    [(encVec [11/8], true), (encVec [869/1024], true)] := by decide +kernel
+example := resume_checkpoint_NUTS_fresh exCfg exNutsCtor exStream (Run.fresh exNutsCtor []) 1
+example := sample_append_NUTS_fresh exCfg 1 1 exNutsCtor exStream
+
+/-! ## 7. NUTS: step-size hand-over, `tune`, and resuming in the warm-up phase -/
+
+/-- **`self._epsilon = self._epsilon_bar`** at the end of every `step`, for every object and stream:
+    afterwards `_epsilon` holds what `_epsilon_bar` held, and `_epsilon_bar` is unchanged. -/
+theorem nuts_epsilon_handover (cfg : NutsCfg) (o : Obj) (ds : List Rat) :
+    ((nutsStepSpec cfg).step o ds).1.get "_epsilon" = o.get "_epsilon_bar" ∧
+    ((nutsStepSpec cfg).step o ds).1.get "_epsilon_bar" = o.get "_epsilon_bar" := by
+  refine ⟨?_, (nutsStepSpec cfg).step_frame o ds "_epsilon_bar" (by show "_epsilon_bar" ∉ nutsWrites; decide)⟩
+  simp only [StepSpec.step, nutsStepSpec, nutsReads, nutsWrites, List.map]
+  obtain ⟨a, n, p, q, r, hsh⟩ := nutsKern_shape cfg (o.get "_epsilon") (o.get "_epsilon_bar") (o.get "_max_depth")
+    (o.get "current_point") (o.get "current_target_grad") (o.get "current_target_logd") ds
+  rw [hsh]
+  rcases p with _ | p <;> rcases q with _ | q <;> rcases r with _ | r <;>
+    simp [collect, applyWrites, get_set]
+
+/-- **the sampling phase runs at the fixed step size `_epsilon_bar`**: along `sample`'s loop
+    `_epsilon_bar` never changes, and from the second transition on `_epsilon` equals it (the
+    first transition after a warm-up still uses the last `_epsilon` set by `tune`, as in the code). -/
+theorem nuts_sampling_stepsize (cfg : NutsCfg) (n : Nat) (r : Run Rat Bool) :
+    (sampleLoop (nutsSpec cfg) n r).obj.get "_epsilon_bar" = r.obj.get "_epsilon_bar" ∧
+    (1 ≤ n → (sampleLoop (nutsSpec cfg) n r).obj.get "_epsilon" = r.obj.get "_epsilon_bar") := by
+  induction n generalizing r with
+  | zero => exact ⟨rfl, fun h => absurd h (by omega)⟩
+  | succ k ih =>
+    simp only [sampleLoop]
+    obtain ⟨h1, h2⟩ := ih (oneStep (nutsSpec cfg) r)
+    have hs := nuts_epsilon_handover cfg r.obj r.stream
+    have ho : (oneStep (nutsSpec cfg) r).obj = ((nutsStepSpec cfg).step r.obj r.stream).1 := rfl
+    rw [ho] at h1 h2
+    refine ⟨by rw [h1, hs.2], fun _ => ?_⟩
+    by_cases hk : 1 ≤ k
+    · rw [h2 hk, hs.2]
+    · have : k = 0 := by omega
+      subst this
+      simp only [sampleLoop]
+      rw [ho, hs.1]
+
+/-- **Resuming in the warm-up phase** — `tune` (dual averaging) reads `_H_bar`, `_epsilon_bar`
+    (state keys), `_current_alpha_ratio`, `_mu`, `_opt_acc_rate` (not state keys).
+    `_current_alpha_ratio` is harmless inside `warmup`: every `step` assigns it before `tune`
+    reads it, so the loop never carries it across a checkpoint.  `_mu` (set once by
+    `_initialize` from the initial step size) and `_opt_acc_rate` (constructor) are carried.
+    Hence: if the sampler that loads the checkpoint has the same `_mu` and `_opt_acc_rate` as the
+    original, then `warmup(Nb, tune_freq)` on the loaded sampler and on the original produce the
+    same `Nb` new samples and acceptance records, consume the same draws and end in objects
+    agreeing on the state keys, `_mu`, `_opt_acc_rate` — for every `Nb`, `tune_freq`, stream. -/
+theorem nuts_warmup_resume (cfg : NutsCfg) (orig fresh : Obj)
+    (hC : AgreeOn ["_mu", "_opt_acc_rate"] fresh orig) :
+    ∃ o', setState Gen.cls_NUTS.stateKeys (getState Gen.cls_NUTS.stateKeys orig) fresh = some o' ∧
+      ∀ (a b : Run Rat Bool), a.obj = orig → b.obj = o' → a.stream = b.stream →
+        a.initialized = true → b.initialized = true → ∀ (nb : Nat) (tf : Rat),
+        ∃ tail : List (Val × Bool), tail.length = nb ∧
+          (warmup (nutsSpec cfg) nb tf a).samples = a.samples ++ tail.map Prod.fst ∧
+          (warmup (nutsSpec cfg) nb tf b).samples = b.samples ++ tail.map Prod.fst ∧
+          (warmup (nutsSpec cfg) nb tf a).acc = a.acc ++ tail.map Prod.snd ∧
+          (warmup (nutsSpec cfg) nb tf b).acc = b.acc ++ tail.map Prod.snd ∧
+          (warmup (nutsSpec cfg) nb tf a).stream = (warmup (nutsSpec cfg) nb tf b).stream ∧
+          AgreeOn nutsWarmKeys (warmup (nutsSpec cfg) nb tf a).obj (warmup (nutsSpec cfg) nb tf b).obj := by
+  obtain ⟨o', hload, hS, hrest⟩ := setState_getState Gen.cls_NUTS.stateKeys orig fresh
+  refine ⟨o', hload, ?_⟩
+  have hK : AgreeOn nutsWarmKeys orig o' := by
+    intro k hk
+    by_cases hs : k ∈ Gen.cls_NUTS.stateKeys
+    · exact (hS k hs).symm
+    · rw [hrest k hs]
+      have : k ∈ ["_mu", "_opt_acc_rate"] := by
+        simp only [nutsWarmKeys, List.mem_cons] at hk
+        rcases hk with h | h | h
+        · simp [h]
+        · simp [h]
+        · exact absurd h hs
+      exact (hC k this).symm
+  intro a b ha hb hst hai hbi nb tf
+  unfold warmup
+  simp only [ensureInit_of_initialized _ a hai, ensureInit_of_initialized _ b hbi]
+  have hpre : AgreeOn nutsWarmKeys ((nutsSpec cfg).preWarmup a.obj) ((nutsSpec cfg).preWarmup b.obj) := by
+    rw [ha, hb]; exact nutsPreWarmup_congr orig o' hK
+  obtain ⟨i1, i2, tail, hl, f1, f2, f3, f4⟩ := nuts_warmLoop_congr cfg (tuneInterval tf nb) nb 0
+    { a with obj := (nutsSpec cfg).preWarmup a.obj } { b with obj := (nutsSpec cfg).preWarmup b.obj } hpre hst
+  exact ⟨tail, hl, f1, f2, f3, f4, i2, i1⟩
+
+/-- **`tune` called directly on a loaded sampler reads a stale `_current_alpha_ratio`**: `orig` has
+    made one transition (statistic `1/2`), the fresh sampler has `NaN` from `_initialize`;
+    `_current_alpha_ratio` is not a state key, so after `set_state(get_state(orig))` a direct
+    `tune(…)` gives a different `_H_bar`.  (Inside `warmup` this cannot happen, see
+    `nuts_warmup_resume`.) -/
+theorem nuts_tune_counterexample :
+    let fresh : Obj := nutsPreWarmup (nutsInit exCfg exNutsCtor)
+    let orig : Obj := ((nutsStepSpec exCfg).step fresh exStream).1
+    ∃ o', setState Gen.cls_NUTS.stateKeys (getState Gen.cls_NUTS.stateKeys orig) fresh = some o' ∧
+      (nutsTune exCfg o' [] 1 0).get "_H_bar" ≠ (nutsTune exCfg orig [] 1 0).get "_H_bar" := by
+  refine ⟨_, rfl, ?_⟩
+  decide +kernel
+
+/-- **Warm-up is not resumable from the state keys alone**: two NUTS objects with the same state
+    keys and the same configuration but different `_mu` — what `_initialize` computes from the
+    initial step size, which `_FindGoodEpsilon` derives from a random momentum when
+    `step_size=None` — warm up differently from the same stream: after `set_state(get_state(orig))`
+    the second stored sample of `warmup` differs.  (The property is about the sampling phase,
+    where `tune` is never called; there `resume_checkpoint_NUTS` holds without any such
+    condition.) -/
+theorem nuts_warmup_counterexample :
+    let orig : Obj := nutsPreWarmup (nutsInit exCfg exNutsCtor)
+    let fresh : Obj := orig.set "_mu" (encQ 2)
+    ∃ o', setState Gen.cls_NUTS.stateKeys (getState Gen.cls_NUTS.stateKeys orig) fresh = some o' ∧
+      (warmLoop (nutsSpec exCfg) 1 2 0 { (Run.fresh orig exStream : Run Rat Bool) with initialized := true }).samples ≠
+      (warmLoop (nutsSpec exCfg) 1 2 0 { (Run.fresh o' exStream : Run Rat Bool) with initialized := true }).samples := by
+  refine ⟨_, rfl, ?_⟩
+  decide +kernel
+
+/-- non-vacuity of `nuts_warmup_resume`: a fresh sampler of the same configuration (given
+    `step_size`) has the same `_mu`, `_opt_acc_rate` -/
+example := nuts_warmup_resume exCfg (((nutsStepSpec exCfg).step (nutsPreWarmup (nutsInit exCfg exNutsCtor)) exStream).1)
+  (nutsInit exCfg exNutsCtor) (by unfold AgreeOn; decide +kernel)
 
 end CuqiVerif.C14
